@@ -2,6 +2,7 @@ import JwtModel.Wire
 import JwtModel.Scope
 import JwtModel.HashId
 import JwtModel.Creds
+import JwtModel.V1
 import JwtModel.Drive.Encode
 /-! Driver handlers for C14: `scopedsigner`, `issueuser`, `emptyperms`. -/
 namespace Jwt.Drive
@@ -81,6 +82,45 @@ def handleScope (fields : List String) : Option String :=
     match unhexStr g with
     | some g => some (hexStr (cleanSubject g))
     | none => some "unsupported"
+  | _ => none
+
+end Jwt.Drive
+
+namespace Jwt.Drive
+open Jwt Jwt.Wire Jwt.Codec
+
+def v1KindOfName (s : String) : Option V1.Kind :=
+  match s with
+  | "operator" => some .operator | "account" => some .account | "user" => some .user
+  | "activation" => some .activation | "cluster" => some .cluster | "server" => some .server
+  | "generic" => some .generic | _ => none
+
+def handleV1 (fields : List String) : Option String :=
+  match fields with
+  | ["v1decode", kind, tok, iss, b1] =>
+    match v1KindOfName kind, unhexStr tok, unhexStr iss with
+    | some k, some tok, some iss =>
+      some (showDRes dumpStr (V1.decode k (cryptoFor tok iss b1 "0") tok))
+    | none, _, _ => some "bad-op"
+    | _, _, _ => some "unsupported"
+  | ["v1encode", kind, dumphex, now, hexpub, urlok] =>
+    match v1KindOfName kind, unhexStr dumphex, parseInt now, unhexStr hexpub with
+    | some k, some d, some now, some pub =>
+      match undump d with
+      | none => some "bad-op"
+      | some v =>
+        let env : EncEnv := { now := now, pub := pub, tokenId := fun _ => jtiPlaceholder,
+                              signB64 := fun _ => [], urlHasScheme := fun _ => urlok == "1" }
+        match V1.encodeParts env k v with
+        | .error .err => some "err"
+        | .error .unsupported => some "unsupported"
+        | .ok (v2, hText, pText) =>
+          let cd := (zero Gen.V1.ClaimsData).copyFrom ((v2.set "jti" (v.field "jti"))) V1.v1ClaimsDataKeys
+          -- the pre-image keeps the previous id; when v1 sorted / stamped nothing else changes it
+          match encodeText codecEnv Gen.V1.ClaimsData (cd.set "type" (v2.field "type")) with
+          | .ok pre => some s!"ok {hexStr hText} {hexStr pText} {hexStr pre} {dumpStr v2}"
+          | _ => some "unsupported"
+    | _, _, _, _ => some "bad-op"
   | _ => none
 
 end Jwt.Drive
